@@ -356,6 +356,9 @@ pub fn cb_trace_enter(id: u32, canary: u64) {
         for e in unsafe { &*node.pins.0.as_ptr() }.iter() {
             e.tprobe.set(0);
         }
+        for e in unsafe { &*node.bulk.as_ptr() }.iter() {
+            e.tprobe.set(0);
+        }
     }
     w.fault_point(FaultKind::Trace);
 }
@@ -385,6 +388,12 @@ pub fn cb_trace_exit(id: u32) {
             let want = if borrowed { 0 } else { 1 };
             if t != want {
                 w.fail("O-VISIT.trace", format!("one trace call on object {} visited container position {} {} times (expected {}; store kind {})", id, i, t, want, STORE_KINDS[w.m.borrow().objs[id as usize].store_kind as usize].0));
+                break;
+            }
+        }
+        for e in unsafe { &*node.bulk.as_ptr() }.iter() {
+            if e.tprobe.replace(0) != 1 {
+                w.fail("O-VISIT.trace", format!("one trace call on object {} did not visit each pointer of a long Vec exactly once", id));
                 break;
             }
         }
@@ -648,7 +657,7 @@ pub fn cb_edge_drop_begin(owner: u32, key: u32, has: bool) -> EdgeDropGuard {
     if owner as usize >= m.objs.len() {
         return inert;
     }
-    let t = m.objs[owner as usize].edges.remove(&key);
+    let t = m.edge_remove(owner, key);
     match (t, has) {
         (None, false) => inert,
         (Some(target), true) => {
